@@ -33,7 +33,8 @@ ERRORS = ["a eq", "a eq 'x", "a $ b", "(a eq 1", "a eq 1)", "foo(1)", "contains(
 VALID = ["a eq 1", "a/b/c eq 'x'", "not (a gt 1 or b lt 2)", "contains(a, 'x') and c in (1, 2)",
          "x/any(v: v/n eq 1)", "ns.f(p=1, q=2)", "a add 1 mul 2 eq 7", "-a eq 2020-01-01",
          "a eq duration'P1DT2H'", "tolower(a) eq 'b'", "a/all(x: x/y/any(z: z eq x/k))", "(1, 2, 3)", "(a,)",
-         "geo.distance(a, geography'POINT(1 2)') lt 5", "t gt 2020-01-01T10:00:00Z", "a eq null", "TRUE"]
+         "geo.distance(a, geography'POINT(1 2)') lt 5", "t gt 2020-01-01T10:00:00Z", "a eq null", "TRUE",
+         "FooBar/Baz eq Qux", "My.Func(Arg=1)"]
 
 
 def outcome(lexer, parser, text):
@@ -43,8 +44,52 @@ def outcome(lexer, parser, text):
         return "exc:%s:%s" % (type(e).__name__, e)
 
 
+PROBE = "Alpha eq 1 and b/Cx in (1, 2) or ns.Fn(Px=1) eq 'Q'"
+_pristine = None
+
+PRISTINE_CHILD = r'''
+import sys, json
+sys.path.insert(0, %(repo)r)
+from odata_query.grammar import ODataLexer, ODataParser
+out = {}
+for s in json.load(sys.stdin):
+    try:
+        out[s] = "ok:" + repr(ODataParser().parse(ODataLexer().tokenize(s)))
+    except Exception as e:
+        out[s] = "exc:%%s:%%s" %% (type(e).__name__, e)
+print(json.dumps(out))
+'''
+
+
+def pristine():
+    """Outcomes of the fixed pools, each computed in its own pristine child process (class-level state
+    leaking between instances would otherwise taint the 'fresh' reference as well)."""
+    global _pristine
+    if _pristine is None:
+        from concurrent.futures import ThreadPoolExecutor
+        env = dict(os.environ)
+        env.pop("PYTHONPATH", None)
+
+        def one(text):
+            p = subprocess.run([sys.executable, "-c", PRISTINE_CHILD % {"repo": REPO}], input=json.dumps([text]),
+                               env=env, stdout=subprocess.PIPE, stderr=subprocess.PIPE, text=True)
+            if p.returncode != 0:
+                raise RuntimeError("pristine child failed: " + p.stderr[-300:])
+            return json.loads(p.stdout.strip().splitlines()[-1])
+
+        res = {}
+        with ThreadPoolExecutor(16) as ex:
+            for d in ex.map(one, VALID + ERRORS + [PROBE]):
+                res.update(d)
+        _pristine = res
+    return _pristine
+
+
 def fresh_outcome(text):
     from odata_query.grammar import ODataLexer, ODataParser
+    base = pristine()
+    if text in base:
+        return base[text]
     return outcome(ODataLexer(), ODataParser(), text)
 
 
@@ -139,7 +184,7 @@ def run_history(steps):
         if r:
             return r
         if s[0] != "probe":
-            r = w.probe("a eq 1 and b/c in (1, 2)")
+            r = w.probe(PROBE)
             if r:
                 return r
     return None
@@ -215,7 +260,7 @@ def make_machine(acc):
 
         @invariant()
         def probe_equals_fresh(self):
-            r = self.w.probe("a eq 1 and b/c in (1, 2)")
+            r = self.w.probe(PROBE)
             if r:
                 acc.fail(r[0], {"steps": [list(x) for x in self.steps]}, r[1])
                 raise AssertionError(r[1])
@@ -304,8 +349,9 @@ def corpus_for(seed, n_random):
 def plan(tier, seed, scale):
     K = 16
     n = int((1600 if tier == "quick" else 5000) * scale)
+    base = pristine()
     tasks = [{"name": "machine-%d" % i, "kind": "machine", "n": max(n // K, 2), "shard": i,
-              "steps": 30 if tier == "quick" else 80} for i in range(K)]
+              "steps": 30 if tier == "quick" else 80, "pristine": base} for i in range(K)]
     hs = [0, 1, 2, 3, 12345] if tier == "quick" else [0, 1, 2, 3, 7, 42, 12345, 99999, 4294967295]
     for i, h in enumerate(hs):
         tasks.append({"name": "children-%d" % h, "kind": "children", "hashseeds": [0, h] if h else [0, 0],
@@ -325,6 +371,8 @@ def run_task(task, seed, acc):
         if r:
             acc.fail(r[0], {"hashseeds": task["hashseeds"], "orders": task["orders"], "corpus": corpus[:50]}, r[1])
         return
+    global _pristine
+    _pristine = task.get("pristine") or _pristine
     Machine = make_machine(acc)
     try:
         run_state_machine_as_test(
@@ -334,3 +382,8 @@ def run_task(task, seed, acc):
                               suppress_health_check=list(HealthCheck), derandomize=False))
     except AssertionError:
         pass  # already recorded through acc.fail
+    except Exception:
+        # Hypothesis re-runs a failing example; when the failure stems from state leaking in the code
+        # under test the re-run can differ (Flaky*). The failure itself is already recorded.
+        if not acc.failures:
+            raise
